@@ -299,9 +299,26 @@ def run_case(ctx, case):
             try:
                 got = dec.decrypt(ct)
             except Exception:
-                return Outcome("rejected", True)
-            return Outcome("accepted-bad").viol(
-                "neg|otherkey-accepted", "frame made under another key was unwrapped to %r" % got[:8])
+                got = None
+            if got is not None:
+                return Outcome("accepted-bad").viol(
+                    "neg|otherkey-accepted", "frame made under another key was unwrapped to %r" % got[:8])
+            # ... and again after the rightful key holder (another object, also of the other encryptor class) has unwrapped the very
+            # same frame in this process: acceptance elsewhere must not make the frame acceptable here
+            for rightful in (SoftwareCustKeyEncryptor(key), SoftwareCustKeyEncryptor(key)):
+                try:
+                    rightful.decrypt(ct)
+                except Exception:
+                    return Outcome("control-rejected").viol("neg|otherkey-control", "the rightful key holder cannot unwrap the frame")
+            for again in (dec, SoftwareCustKeyEncryptor(key_of(ctx, k2)), ConfigSecurityCodeEncryptor(code_of(ctx, k2))):
+                try:
+                    got = again.decrypt(ct)
+                except Exception:
+                    continue
+                return Outcome("accepted-bad").viol(
+                    "neg|otherkey-accepted-after-rightful-unwrap", "a frame made under another key was unwrapped by %s after the rightful "
+                    "key holder had unwrapped the same frame" % type(again).__name__)
+            return Outcome("rejected", True)
         elif what == "custkey":
             pos, bit = divmod(arg, 1000)
             ck = ctx.sym("c08-ck", 10)
